@@ -347,6 +347,11 @@ def w_laser_pm_power(ctx, rng, i):
     ctx.case(("lpm", round(p)))
 
 
+def FORM_TWINS():
+    import opticomlib.devices as dv
+    return [(dv, ["MZM", "PM", "LASER"])]
+
+
 WORKLOADS = [
     Workload("mzm", w_mzm, 3000, 120000),
     Workload("mzm_er", w_mzm_er, 400, 40000),
